@@ -1,4 +1,4 @@
 ---- MODULE MCGenGraph ----
 EXTENDS GenGraph
-MCPos == {"ternary", "switchsel", "forupdate", "whilecond"}
+MCPos == {"switchcase", "index", "dowhilecond", "argofarg", "stmt"}
 ====
